@@ -46,6 +46,7 @@ static void do_op(int t, const char* op) {
 int main(int argc, char** argv) {
   if (argc < 3) return 2;
   vh_parse(argv[2]);
+  VH_DIRTY(lifo);
   mpmc_lifo_init(&lifo);
   char note[256] = "init lifo";
   char* dup = strdup(argv[1]);
